@@ -12,163 +12,7 @@ import (
 
 	"github.com/sdcio/yang-parser/xpath"
 	"github.com/sdcio/yang-parser/xpath/grammars/expr"
-	"pgregory.net/rapid"
 )
-
-// Case: an expression containing location paths, the context node and whether a prefix map is supplied.
-type Case struct {
-	Expr   *xp.E   `json:"expr"`
-	Ctx    tree.ID `json:"ctx"`
-	MapFn  bool    `json:"mapfn"`
-	Blanks bool    `json:"blanks,omitempty"`
-}
-
-var names = []string{"a", "b", "c", "d", "e", "if", "div", "and", "x-1", "lst"}
-var keyNames = []string{"k", "name", "id", "mod", "z"}
-
-type gen struct{ t *rapid.T }
-
-func (g *gen) pick(n int, l string) int { return rapid.IntRange(0, n-1).Draw(g.t, l) }
-
-func (g *gen) nameStep() xp.Step {
-	s := xp.Step{Kind: "name", Name: names[g.pick(len(names), "name")]}
-	if g.pick(4, "pfx") == 0 {
-		s.Prefix = []string{"p", "q"}[g.pick(2, "pfxname")]
-	}
-	return s
-}
-
-// operandPath: predicate-free; absolute, current()-rooted or starting with '..'
-func (g *gen) operandPath(allowDeref bool) *xp.Path {
-	p := &xp.Path{}
-	kind := g.pick(4, "opndroot")
-	if kind == 3 && !allowDeref {
-		kind = g.pick(3, "opndroot2")
-	}
-	switch kind {
-	case 0:
-		p.Root = "abs"
-	case 1:
-		p.Root = "cur"
-	case 2:
-		p.Root = "rel"
-		p.Steps = append(p.Steps, xp.Step{Kind: "up"})
-	default:
-		p.Root = "deref"
-		p.Deref = g.operandPath(false)
-	}
-	n := g.pick(4, "opndsteps")
-	if p.Root == "abs" && n == 0 {
-		n = 1
-	}
-	for i := 0; i < n; i++ {
-		if g.pick(4, "opndup") == 0 {
-			p.Steps = append(p.Steps, xp.Step{Kind: "up"})
-		} else {
-			p.Steps = append(p.Steps, g.nameStep())
-		}
-	}
-	return p
-}
-
-func (g *gen) operand() *xp.E {
-	switch g.pick(7, "operand") {
-	case 0:
-		return xp.Lit([]string{"v", "eth0", "", "a b", "10.0.0.1/24", "é"}[g.pick(6, "lit")])
-	case 1:
-		return xp.Num([]string{"1", "42", "0", "1.5", "007"}[g.pick(5, "num")])
-	case 2:
-		// function result over literals / numbers / one operand path
-		switch g.pick(6, "fn") {
-		case 4:
-			return xp.Call("concat", xp.PathE(g.operandPath(true)), xp.PathE(g.operandPath(true)))
-		case 5:
-			return xp.Call("concat", xp.Call("string", xp.PathE(g.operandPath(true))), xp.Call("substring", xp.PathE(g.operandPath(true)), xp.Num("1"), xp.Num("8")))
-		case 0:
-			return xp.Call("concat", xp.Lit("x"), xp.PathE(g.operandPath(true)))
-		case 1:
-			return xp.Call("string", xp.PathE(g.operandPath(true)))
-		case 2:
-			return xp.Bin("+", xp.Num("1"), xp.Num("2"))
-		default:
-			return xp.Call("substring", xp.Lit("abcdef"), xp.Num("2"), xp.Num("3"))
-		}
-	default:
-		return xp.PathE(g.operandPath(true))
-	}
-}
-
-func (g *gen) mainPath() *xp.Path {
-	p := &xp.Path{Root: []string{"rel", "rel", "abs", "cur", "deref"}[g.pick(5, "root")]}
-	if p.Root == "deref" {
-		p.Deref = g.operandPath(false)
-		if g.pick(2, "derefrel") == 0 {
-			// deref of a plain relative path
-			p.Deref = &xp.Path{Root: "rel", Steps: []xp.Step{g.nameStep()}}
-		}
-	}
-	n := 1 + g.pick(6, "nsteps")
-	if (p.Root == "cur" || p.Root == "deref") && g.pick(4, "nosteps") == 0 {
-		n = 0
-	}
-	for i := 0; i < n; i++ {
-		switch g.pick(8, "stepkind") {
-		case 0:
-			p.Steps = append(p.Steps, xp.Step{Kind: "up"})
-		case 1:
-			if g.pick(3, "self") == 0 {
-				p.Steps = append(p.Steps, xp.Step{Kind: "self"})
-			} else {
-				p.Steps = append(p.Steps, g.nameStep())
-			}
-		default:
-			s := g.nameStep()
-			np := []int{0, 0, 1, 1, 2, 3}[g.pick(6, "npreds")]
-			perm := rapid.Permutation(keyNames).Draw(g.t, "keys")
-			for j := 0; j < np; j++ {
-				s.Preds = append(s.Preds, xp.Pred{Key: perm[j], Val: g.operand()})
-			}
-			p.Steps = append(p.Steps, s)
-		}
-	}
-	return p
-}
-
-func (g *gen) ctxID() tree.ID {
-	d := g.pick(5, "ctxdepth")
-	id := tree.ID{}
-	for i := 0; i < d; i++ {
-		e := tree.Elem{Name: names[g.pick(len(names), "ctxname")]}
-		if g.pick(3, "ctxkey") == 0 {
-			e.Keys = map[string]string{keyNames[g.pick(len(keyNames), "ck")]: []string{"1", "x", "a b"}[g.pick(3, "cv")]}
-		}
-		id = append(id, e)
-	}
-	return id
-}
-
-func genCase(t *rapid.T) Case {
-	g := &gen{t}
-	p1 := xp.PathE(g.mainPath())
-	var e *xp.E
-	switch g.pick(8, "context") {
-	case 0, 1:
-		e = p1
-	case 2:
-		e = xp.Call("string", p1)
-	case 3:
-		e = xp.Bin("=", p1, xp.Lit("x"))
-	case 4:
-		e = xp.Bin("+", xp.Num("1"), p1)
-	case 5:
-		e = xp.Bin("=", p1, xp.PathE(g.mainPath()))
-	case 6:
-		e = xp.Call("concat", p1, xp.PathE(g.mainPath()))
-	default:
-		e = xp.Bin("or", xp.Bin("=", p1, xp.PathE(g.mainPath())), xp.Bin("!=", xp.PathE(g.mainPath()), xp.Lit("y")))
-	}
-	return Case{Expr: e, Ctx: g.ctxID(), MapFn: rapid.Bool().Draw(t, "mapfn"), Blanks: rapid.Bool().Draw(t, "blanks")}
-}
 
 func classify(c Case) (labels []string, nontrivial bool) {
 	npaths, maxsteps := 0, 0
